@@ -1,8 +1,11 @@
 //! frontmon: monitors over the ASN.1 front end (C07 C08 C12 C13 C14 C15 C16 text level).
 mod c07;
+mod c08;
+mod c12;
 mod c13;
 mod c14;
 mod c15;
+mod c16;
 mod common;
 mod proj;
 
@@ -21,9 +24,17 @@ fn main() {
     let mut rep = Report::new(&property, &tier, seed, shard, &variant);
     match property.as_str() {
         "C07" => c07::run(&mut rep, &tier, seed, shard, nshards),
+        "C08" => c08::run(&mut rep, &tier, seed, shard, nshards),
+        "C12" => c12::run(&mut rep, &tier, seed, shard, nshards),
         "C13" => c13::run(&mut rep, &tier, seed, shard, nshards),
         "C14" => c14::run(&mut rep, &tier, seed, shard, nshards),
         "C15" => c15::run(&mut rep, &tier, seed, shard, nshards),
+        "C16" => c16::run(&mut rep, &tier, seed, shard, nshards),
+        "EXPAND" => {
+            let text = std::fs::read_to_string(args.str("file", "/dev/stdin")).unwrap();
+            println!("{}", c16::expansion_of(&text, &args.str("def", "Subject")).unwrap_or_else(|e| e));
+            return;
+        }
         "PARSE" => {
             let text = std::fs::read_to_string(args.str("file", "/dev/stdin")).unwrap();
             println!("{:?}", asn1rs::model::parse::Tokenizer.parse(&text));
